@@ -1047,6 +1047,27 @@ func (e *Engine) checkModel(ops []*opRec) {
 	closed := false
 	certainlyUnexpired := func(v *Val, t int64) bool { return v.TTL == 0 || t < satAdd(v.InvT, v.TTL) }
 	certainlyExpired := func(v *Val, t int64) bool { return v.TTL > 0 && t > satAdd(v.RetT, v.TTL) }
+	// checkTTL: a GetTTL hit that can only be about value v reports v's expiry:
+	// nothing for ttl=0, otherwise a remaining time inside the interval the
+	// call times allow and never above the ttl given.
+	checkTTL := func(o *opRec, v *Val) {
+		d := o.A
+		if v.TTL == 0 && d != 0 {
+			e.mviolate("C07", "getttl-no-ttl", fmt.Sprintf("GetTTL(key %d) reported %v for an item written without ttl", o.Key, time.Duration(d)), o.RetSeq)
+		}
+		if v.TTL > 0 {
+			lo := satAdd(v.InvT, v.TTL) - o.RetT
+			hi := satAdd(v.RetT, v.TTL) - o.InvT
+			if satAdd(v.RetT, v.TTL) == math.MaxInt64 {
+				// the expiration instant is beyond what fits in the oracle's
+				// arithmetic: only the upper bound "no more than the ttl given"
+				lo, hi = 0, v.TTL
+			}
+			if d > v.TTL || d > hi || d < lo {
+				e.mviolate("C07", "getttl-range", fmt.Sprintf("GetTTL(key %d) reported %v for value %d; ttl given %v, consistent range [%v,%v]", o.Key, time.Duration(d), v.ID, time.Duration(v.TTL), time.Duration(lo), time.Duration(hi)), o.RetSeq)
+			}
+		}
+	}
 	for _, o := range ops {
 		if o.RetSeq == 0 {
 			break
@@ -1162,6 +1183,11 @@ func (e *Engine) checkModel(ops []*opRec) {
 				if hit && o.K == OpGet && x != s.v {
 					e.mviolate("C06", "pending-wrong-value", fmt.Sprintf("Get(key %d) at #%d returned value %d while only value %d was pending", o.Key, o.InvSeq, vid(x), s.v.ID), o.RetSeq)
 				}
+				if hit && o.K == OpGetTTL {
+					// the only value that can be there is the pending one: what GetTTL
+					// reports must be that value's expiry
+					checkTTL(o, s.v)
+				}
 			case kResident:
 				v := s.v
 				switch {
@@ -1186,22 +1212,7 @@ func (e *Engine) checkModel(ops []*opRec) {
 						e.mviolate("C06", "resident-wrong-value", fmt.Sprintf("Get(key %d) at #%d returned value %d, expected the resident value %d", o.Key, o.InvSeq, vid(x), v.ID), o.RetSeq)
 					}
 					if hit && o.K == OpGetTTL {
-						d := o.A
-						if v.TTL == 0 && d != 0 {
-							e.mviolate("C07", "getttl-no-ttl", fmt.Sprintf("GetTTL(key %d) reported %v for an item written without ttl", o.Key, time.Duration(d)), o.RetSeq)
-						}
-						if v.TTL > 0 {
-							lo := satAdd(v.InvT, v.TTL) - o.RetT
-							hi := satAdd(v.RetT, v.TTL) - o.InvT
-							if satAdd(v.RetT, v.TTL) == math.MaxInt64 {
-								// the expiration instant is beyond what fits in the oracle's
-								// arithmetic: only the upper bound "no more than the ttl given"
-								lo, hi = 0, v.TTL
-							}
-							if d > v.TTL || d > hi || d < lo {
-								e.mviolate("C07", "getttl-range", fmt.Sprintf("GetTTL(key %d) reported %v; ttl given %v, consistent range [%v,%v]", o.Key, time.Duration(d), time.Duration(v.TTL), time.Duration(lo), time.Duration(hi)), o.RetSeq)
-							}
-						}
+						checkTTL(o, v)
 					}
 				default:
 					if hit && o.K == OpGet && x != v {
